@@ -68,6 +68,7 @@ func main(a, b uint8) uint8 {
 type fixedProg struct {
 	Case
 	slow      bool // fewer repetitions
+	many      bool // cheap and order-sensitive: 40 in-process repetitions
 	noHistory bool
 }
 
@@ -82,7 +83,8 @@ func repo(name string, sizes [][]int) fixedProg {
 }
 
 func lib(name, main string) fixedProg {
-	return fixedProg{Case: Case{Kind: "lib", Name: name, Main: main, Tags: []string{"lib:" + name}}}
+	return fixedProg{Case: Case{Kind: "lib", Name: name, Main: main, Tags: []string{"lib:" + name}},
+		many: true}
 }
 
 // fixedPrograms is the list of repository programs (measured: each compiles
@@ -151,6 +153,43 @@ func main(a, b [3]byte) (string, int, uint64) {
 }
 `),
 	}
+	// Hand-minimised regression: two independent packages whose
+	// initialisers emit instructions (array element reads are not folded);
+	// the order in which they are initialised decides gate order and wire
+	// numbering.
+	res = append(res, fixedProg{many: true, Case: Case{Kind: "multi", Name: "min-init-order",
+		Tags: []string{"lib:min-init-order"},
+		Main: `package main
+
+import (
+	"pa"
+	"pb"
+)
+
+func main(a, b uint8) uint8 {
+	return pa.F(a) ^ pb.F(b)
+}
+`,
+		Files: []File{
+			{Path: "pa/pa.mpcl", Text: `package pa
+
+var t = [2]uint8{1, 2}
+var d uint8 = t[0] + t[1]
+
+func F(x uint8) uint8 {
+	return x + d
+}
+`},
+			{Path: "pb/pb.mpcl", Text: `package pb
+
+var t = [2]uint8{5, 3}
+var d uint8 = t[0] - t[1]
+
+func F(x uint8) uint8 {
+	return x + d
+}
+`},
+		}}})
 	if thorough {
 		for _, n := range []string{
 			"apps/garbled/examples/chacha20block.mpcl",
